@@ -269,6 +269,20 @@ class TimeoutFut(Model):
         return TimeoutFut(f[0])
 
 
+class SleepFut(Model):
+    """tokio::time::Sleep: never elapses within the explored window (stated assumption)"""
+    __slots__ = ()
+    fields = ()
+
+
+def m_sleep(it, a, ty, callee):
+    return SleepFut()
+
+
+def m_sleep_poll(it, a, ty, callee):
+    return Adt(POLL, 1, ())
+
+
 def m_timeout(it, a, ty, callee):
     return TimeoutFut(a[1])
 
@@ -314,3 +328,5 @@ def install(it):
     A(r"<tokio::io::util::flush::Flush<'_, .*> as (?:std::future|futures)::Future>::poll", m_flush_poll)
     A(r'tokio::time::timeout::<.*>', m_timeout)
     A(r'<tokio::time::Timeout<.*> as (?:std::future|futures)::Future>::poll', m_timeout_poll)
+    A(r'tokio::time::sleep', m_sleep)
+    A(r'<tokio::time::Sleep as (?:std::future|futures)::Future>::poll', m_sleep_poll)
